@@ -1129,7 +1129,7 @@ pub fn run(cx: &mut Cx, w: &World, rng: &mut Rng, budget: u64) {
     }
     k += 1;
     if cx.args.mine(k) {
-      let mut run = |cx: &mut Cx, idx: usize| {
+      let run = |cx: &mut Cx, idx: usize| {
         let (entry, class, text) = list[idx].describe();
         cx.rep.inc(&format!("isolated_{}", class.replace('-', "_")));
         cx.isolated(entry, class, In::S(&text), idx)
